@@ -2162,6 +2162,31 @@ fn sub_c16_builder(input: &[u8], st: &mut Stats) -> R {
     if !out.ok {
         return Err(Fail::new("builder-call-failed", mm.mi.name.to_string(), format!("{} failed with a block open: {:?}", render_args(mm, &planned.args), out.err)));
     }
+    // the instruction the call actually appended (the block held two OpNop before)
+    let appended: Vec<spirv::Op> = b
+        .module_ref()
+        .functions
+        .last()
+        .and_then(|f| f.blocks.last())
+        .map(|bl| bl.instructions.iter().map(|i| i.class.opcode).filter(|o| *o != spirv::Op::Nop).collect())
+        .unwrap_or_default();
+    if let [actual] = appended[..] {
+        let pa = rspirv::grammar::reflect::is_block_terminator(actual);
+        if closed != pa {
+            return Err(Fail::new(
+                "builder-ends-block-iff-terminator",
+                format!("{:?}:{}", actual, if closed { "closed" } else { "left-open" }),
+                format!(
+                    "Builder::{} appended Op{:?} and {} the block, but is_block_terminator(Op{:?}) = {}",
+                    mm.mi.name,
+                    actual,
+                    if closed { "ended" } else { "did not end" },
+                    actual,
+                    pa
+                ),
+            ));
+        }
+    }
     if closed != pred {
         return Err(Fail::new(
             "builder-ends-block-iff-terminator",
